@@ -405,9 +405,8 @@ Proof. reflexivity. Qed.
 Lemma render_node_for pos ipos s body default :
   render_node pyint d (NFor pos ipos s body default) =
   match range_len pyint (eval_prim d s) with
-  | Ok O => render_opt pyint d default
-  | Ok k => repeat_rout k (render_block pyint d body)
-  | e => ([], res_unit e)
+  | O => render_opt pyint d default
+  | k => repeat_rout k (render_block pyint d body)
   end.
 Proof. reflexivity. Qed.
 
@@ -487,8 +486,7 @@ Proof.
     rewrite render_node_for, visit_for.
     eapply (covered_incl (visit_block body ++ visit_opt default)).
     { apply incl_appr, incl_tl, incl_refl. }
-    destruct (range_len pyint (eval_prim d stop)) as [[|k]| | |]; cbn [fst];
-      try apply covered_nil.
+    destruct (range_len pyint (eval_prim d stop)) as [|k].
     + eapply covered_incl; [apply incl_appr, incl_refl|apply Hd].
     + eapply covered_incl; [apply incl_appl, incl_refl|].
       apply covered_repeat, Hb.
